@@ -860,7 +860,35 @@ def rule_na(ctx):
     rep.ob('NA', K.key(cls, '__len__', 'len=len(offsets)'), ok, ln, '')
 
 
+def rule_it(ctx):
+    """IT (sibling agreement): integer indices are recognised with numbers.Integral everywhere. Index arrays (slices,
+    shuffles, sorts, shards) hand numpy integers to the stage below them; a stage that tests `isinstance(i, int)`
+    answers those with its fallback (NotImplementedError / a slice) although ds[int(i)] works."""
+    rep = ctx.report
+    n = 0
+    for cls in [ctx.repo.dataset_base()] + list(K.family(ctx)):
+        mem = cls.own('__getitem__')
+        if mem is None or not mem.is_function:
+            continue
+        params = [a.arg for a in mem.node.args.posonlyargs + mem.node.args.args]
+        if len(params) < 2:
+            continue
+        item = params[1]
+        for c in A.walk_local(mem.node):
+            if isinstance(c, ast.Call) and A.dotted(c.func) == 'isinstance' and len(c.args) == 2 and A.is_name(c.args[0], item):
+                types = [A.src(e) for e in (c.args[1].elts if isinstance(c.args[1], ast.Tuple) else [c.args[1]])]
+                if any(t in ('int', 'numbers.Integral', 'Integral', 'np.integer', 'numpy.integer') for t in types):
+                    n += 1
+                    ok = any(t in ('numbers.Integral', 'Integral') for t in types)
+                    rep.ob('IT', K.key(cls, '__getitem__', 'integer-indices-by-numbers.Integral'), ok, c,
+                           '' if ok else 'integer indices are recognised with %s only: numpy integers (what every index array of '
+                           'a slice / shuffle / sort / shard contains) fall through to the fallback branch' % types,
+                           nontrivial=False)
+    rep.floor('integer type tests in __getitem__', n, 10)
+
+
 def run(ctx):
+    rule_it(ctx)
     rule_na(ctx)
     rule_k0(ctx)
     rule_k1(ctx)
